@@ -53,11 +53,17 @@ class InterestTreeNode:
             PendingIntEntry(future, param.lifetime,
                             param.can_be_prefix, param.must_be_fresh, implicit_sha256))
 
-    def nack_interest(self, nack_reason: int) -> bool:
+    def nack_interest(self, nack_reason: int, implicit_sha256=b'') -> bool:
+        # A Nack names one Interest: entries with another implicit digest (or none) stay pending
+        remaining = []
         for entry in self.pending_list:
-            if not entry.future.done():
-                entry.future.set_exception(InterestNack(nack_reason))
-        return True
+            if entry.implicit_sha256 == implicit_sha256:
+                if not entry.future.done():
+                    entry.future.set_exception(InterestNack(nack_reason))
+            else:
+                remaining.append(entry)
+        self.pending_list = remaining
+        return not remaining
 
     def satisfy(self, data: DataTuple, is_prefix: bool) -> bool:
         unsatisfied_entries = []
